@@ -49,6 +49,15 @@ type Bracket struct {
 	SrcState string // state reported when the bracket opened
 	EndState string // state reported when it closed
 	Steps    []string
+	Windows  []StepWin
+}
+
+// StepWin is one moment of a transition as delimited by the core's "transition step starting/finished" events.
+type StepWin struct {
+	Name  string
+	Start int64
+	End   int64 // 0 = never finished
+	Error string
 }
 
 // ParseBrackets delimits transitions and teardowns; the second result lists structural
@@ -121,6 +130,15 @@ func ParseBrackets(evs []EnvEvent) ([]Bracket, []string) {
 			}
 			if e.Message == "transition step starting" {
 				cur.Steps = append(cur.Steps, e.Step)
+				cur.Windows = append(cur.Windows, StepWin{Name: e.Step, Start: e.Seq})
+			} else if e.Message == "transition step finished" {
+				for i := len(cur.Windows) - 1; i >= 0; i-- {
+					if cur.Windows[i].Name == e.Step && cur.Windows[i].End == 0 {
+						cur.Windows[i].End = e.Seq
+						cur.Windows[i].Error = e.Error
+						break
+					}
+				}
 			}
 		}
 	}
